@@ -211,7 +211,7 @@ def gen(ctx):
     quick = ctx.tier == "quick"
     edges = st.sampled_from(["HD", "NK", "SB", "--", "OA", "HD"])
     # categories whose head rules have every shape of the tables: several priority lists, both directions, empty lists
-    labels = st.sampled_from(["S", "NP", "VP", "PP", "AP", "X", "CO", "DL", "VZ", "CH", "ISU", "MPN"])
+    labels = st.sampled_from(["S", "NP", "VP", "PP", "AP", "X", "CO", "DL", "VZ", "CH", "ISU", "MPN", "VROOT"])
     pos = st.sampled_from(["NN", "VVFIN", "ART", "ADJA", "APPR", "$,"])
     base = S.tree_model(min_tokens=3, max_tokens=9 if quick else 14, disc=0.9, disc_step=0.8, edges=edges, labels=labels, pos=pos, max_arity=4)
 
